@@ -19,7 +19,7 @@ TECH = {
     "C09": "HMAC->RC4->drop wiring by provenance, direction-constant table, RC4 step-term matching (closure and loop forms, every round / every byte), field-write census, header-framing agreement of encoder and decoder (byte-term rules of C10)",
     "C10": "byte-term abstract interpretation of encoder/decoder + interval/known-bit reasoning on the threshold + keystream byte count",
     "C11": "who-may-call census (read_exact/write_all only), error-propagation rule, no-write-frame-before-fallible-I/O rule on the CFG, wire-layout byte terms, facade delegation by provenance",
-    "C12": "type-closure census (ownership non-interference), item census (no statics/unsafe/interior mutability), rustc Send facts, split/clone/unsplit identity by provenance, unsplit gate; compile_fail witnesses",
+    "C12": "type-closure census (ownership non-interference), item census (no statics/unsafe/interior mutability), rustc Send facts, split/clone/unsplit identity by provenance, unsplit gate, who-may-write census of the stored key the pair test compares; compile_fail witnesses",
     "C13": "char-set abstract interpretation of the accept path + dominating length gate + delegation and derive-order rules",
     "C14": "panic-obligation discharge over the peer-facing call-graph closure (intervals, dominating guards, field invariants, iterator lengths, Reduced32 typestate, justified table)",
     "C15": "FRESH-random dataflow summary per documented source + item census (no caches)",
